@@ -662,6 +662,7 @@ func runC20(c *Check) {
 	ruleHelperSequential(c, c.Mod(ModRoot), "C20-R12")
 	rulePersistedFieldsSurvive(c, p, "C20-R13", basedPkg)
 	ruleStoreNotBuffered(c, p, "C20-R14", basedPkg)
+	ruleDAHeightsServedAreClosed(c, []*Prog{c.Mod(ModCore), c.Mod(ModDA)}, "C20-R17")
 	c.MinInstances("C20-R13", 1)
 	c.MinInstances("C20-R8", 4)
 	c.MinInstances("C20-R1", 1)
